@@ -326,7 +326,7 @@ func (p *parser) ifStatement() ast.Statement {
 		}
 		comma := p.previous()
 		p.setScope(thenScope)
-		Then = p.checkedDeclaration() // parse the single (non-block) statement
+		Then = p.checkedSingleStatement() // parse the single (non-block) statement
 		p.exitScope()
 		Then = &ast.BlockStmt{
 			Range:      Then.GetRange(),
@@ -345,7 +345,7 @@ func (p *parser) ifStatement() ast.Statement {
 			} else { // without it we just parse a single statement
 				_else := p.previous()
 				p.setScope(elseScope)
-				Else = p.checkedDeclaration()
+				Else = p.checkedSingleStatement()
 				p.exitScope()
 				Else = &ast.BlockStmt{
 					Range:      Else.GetRange(),
@@ -396,7 +396,7 @@ func (p *parser) whileStatement() ast.Statement {
 	} else {
 		is := p.previous()
 		p.setScope(bodyTable)
-		Body = p.checkedDeclaration()
+		Body = p.checkedSingleStatement()
 		p.exitScope()
 		Body = &ast.BlockStmt{
 			Range:      Body.GetRange(),
@@ -506,7 +506,7 @@ func (p *parser) forStatement() ast.Statement {
 		} else { // body is a single statement
 			Colon := p.previous()
 			p.setScope(bodyTable)
-			stmt := p.checkedDeclaration()
+			stmt := p.checkedSingleStatement()
 			p.exitScope()
 			// wrap the single statement in a block for variable-scoping of the counter variable in the resolver and typechecker
 			Body = &ast.BlockStmt{
@@ -584,7 +584,7 @@ func (p *parser) forStatement() ast.Statement {
 		} else { // body is a single statement
 			Colon := p.previous()
 			p.setScope(bodyTable)
-			stmt := p.checkedDeclaration()
+			stmt := p.checkedSingleStatement()
 			p.exitScope()
 			// wrap the single statement in a block for variable-scoping of the counter variable in the resolver and typechecker
 			Body = &ast.BlockStmt{
